@@ -122,6 +122,70 @@ def run(ctx):
                 led.violation("C20.names", "%s::%s" % (name, short(n)), m.where(n), "indexing a dict view works on Python 2 only")
             if isinstance(n, ast.Subscript) and isinstance(n.value, ast.Call) and isinstance(n.value.func, ast.Name) and n.value.func.id in ("map", "filter", "zip", "range"):
                 led.violation("C20.names", "%s::%s" % (name, short(n)), m.where(n), "indexing %s() works on Python 2 only" % n.value.func.id)
+    # keyword arguments that do not exist on every declared interpreter
+    for name, m in sorted(ctx.repo.modules.items()):
+        for n in ast.walk(m.tree):
+            if not isinstance(n, ast.Call):
+                continue
+            fname = n.func.attr if isinstance(n.func, ast.Attribute) else n.func.id if isinstance(n.func, ast.Name) else None
+            table = PC.NEW_KEYWORDS.get(fname)
+            if not table:
+                continue
+            for kw in n.keywords:
+                first = table.get(kw.arg)
+                if first is None:
+                    continue
+                n_calls += 1
+                if (py2 and first >= (3, 0)) or first > py3min:
+                    led.violation(
+                        "C20.names",
+                        "%s::%s" % (name, short(n)),
+                        m.where(n),
+                        "keyword argument %s= of %s() exists only from Python %d.%d (TypeError on older declared interpreters)"
+                        % (kw.arg, fname, first[0], first[1]),
+                    )
+    # Python 2: list-comprehension variables leak into the enclosing scope
+    if py2:
+        for name, m in sorted(ctx.repo.modules.items()):
+            for f in m.all_functions():
+                comps = [x for x in ast.walk(f.node) if isinstance(x, ast.ListComp) and m.enclosing_function(x) is f.node]
+                for lc in comps:
+                    inside = set(id(x) for x in ast.walk(lc))
+                    targets = set(t.id for g in lc.generators for t in ast.walk(g.target) if isinstance(t, ast.Name))
+                    for t in sorted(targets):
+                        # harmful only if the outer variable can be read after the comprehension ran:
+                        # a read later in the source, or a read inside the innermost loop that
+                        # also contains the comprehension (next iteration)
+                        loops = [a for a in m.ancestors(lc) if isinstance(a, (ast.For, ast.While)) and m.enclosing_function(a) is f.node]
+                        inner_loop = loops[0] if loops else None
+                        end = getattr(lc, "end_lineno", lc.lineno)
+                        clash = []
+                        for x in ast.walk(f.node):
+                            if not (isinstance(x, ast.Name) and x.id == t and id(x) not in inside and isinstance(x.ctx, ast.Load)):
+                                continue
+                            if m.enclosing_function(x) is not f.node:
+                                continue
+                            rebound = False
+                            for a_ in m.ancestors(x):
+                                if isinstance(a_, (ast.ListComp, ast.GeneratorExp, ast.SetComp, ast.DictComp)) and any(
+                                    isinstance(tt, ast.Name) and tt.id == t for g_ in a_.generators for tt in ast.walk(g_.target)
+                                ):
+                                    rebound = True
+                            if rebound:
+                                continue
+                            later = x.lineno > end
+                            same_loop = inner_loop is not None and any(a is inner_loop for a in m.ancestors(x))
+                            if later or same_loop:
+                                clash.append(x)
+                        n_calls += 1
+                        if clash:
+                            led.violation(
+                                "C20.scope",
+                                "%s::%s" % (f.qualname, short(lc)),
+                                m.where(lc),
+                                "the list-comprehension variable %r is also a variable of the enclosing function: on Python 2.7 the "
+                                "comprehension overwrites it (comprehension variables leak), on Python 3 it does not" % t,
+                            )
     led.ok("C20.names", "API census", "cvss/", "%d call/attribute sites checked against the availability tables" % n_calls)
     # fallbacks present
     inter = ctx.repo.module("interactive")
@@ -189,6 +253,17 @@ def run(ctx):
                 "as_json(sort=False) returns a plain dict: its key order on Python 2.7 is arbitrary and differs from 3.x "
                 "(JSON key order is part of the promised identical behaviour)",
             )
+    # set iteration order differs between interpreters (and hash seeds) as well
+    from .. import rules_global as RG
+
+    class _Relabel(object):
+        def __getattr__(self_, name):
+            return lambda *a, **k: True
+
+        def violation(self_, rule, ck, where, what, **kw):
+            led.violation("C20.order", ck, where, what + " (set order also differs between interpreters)")
+
+    RG.check_hashorder(ctx, _Relabel())
     rows, summ = RC.check_c17(ctx, _Null())
     n_order += 1
     if py2:
